@@ -70,6 +70,7 @@ func pairSpace(tier, opt string) []pairLeg {
 	add("numbers", NumDocs())
 	add("strings", StrDocs())
 	add("hostile", thin(HostileDocs(), 110))
+	add("hostile2", HostileDocs2())
 	switch {
 	case o == "none":
 		if thorough {
